@@ -14,7 +14,7 @@ from vf.harness import assemble
 LEVEL = "fault_enumeration"
 RULE = (
     "fault enumeration: valid generated programs rendered with random comments, blank lines, indentation, multi-line /* */ comments, "
-    "blocks, macro definitions and (nested) .include files x 19 classes of erroneous statement (undefined symbol in an operand / in a data "
+    "blocks, macro definitions and (nested) .include files x 24 classes of erroneous statement (undefined symbol in an operand / in a data "
     "directive / in a data list continued over two lines, unterminated string with an escaped quote followed by lines holding quote characters, bad size suffix, bad outer / inner index register, unterminated string before a newline / at end of input, size suffix "
     "missing at end of line) inserted at every statement position (thorough) or 8 positions (quick), in the main file and in included "
     "files; the reported file, zero-based line, quoted line text and (lexical errors) column are judged against the known insertion point; "
@@ -52,6 +52,14 @@ FAULTS = {
     # the statement that fails is the last line of this text
     "undefined_operand_same_text_as_earlier": ("node", ".scope sc_zz9 {\ninner_zz9:\njsr.w inner_zz9\n.dw inner_zz9\n}\njsr.w inner_zz9", None, 0, 5),
     "undefined_data_same_text_as_earlier": ("node", "{\ninner_zz9:\n.dw inner_zz9\n}\nnop\n.dw inner_zz9", None, 0, 5),
+    # a comment after the erroneous statement on the same line: the line is quoted as it stands
+    "bad_suffix_before_comment": ("scan", "lda.q #0x00 ; load the accumulator", ".q", 1),
+    "bad_outer_index_before_comment": ("scan", "sta 0x2100,z ; screen display register", ",z", 1),
+    "bad_inner_index_before_block_comment": ("scan", "lda (0x10,q) /* pointer */ ; x", ",q", 1),
+    # the statement that fails stands in the body of a macro (defined here, possibly in an included file) that the main file applies at its end:
+    # the error is where the statement is written
+    "undefined_operand_in_macro_applied_elsewhere": ("node_applied", ".macro lib_zz9(pa) {\nlda.w undefined_zz9\n.db pa\n}", None, 0, 1),
+    "undefined_data_in_macro_applied_elsewhere": ("node_applied", ".macro lib_zz9(pa) {\n.db pa\n.dw undefined_zz9 + pa\n}", None, 0, 2),
     "unterminated_string_escaped_quote": ("scan", ".ascii 'Don\\'t panic\n.ascii 'Bye'\nrts ; that's all", "'Don", 0),
 }
 LOC_RE = re.compile(r"(?P<file>[\w./-]+):(?P<line>-?\d+)(?::(?P<col>-?\d+))?")
@@ -87,6 +95,10 @@ def check_case(res: Res, p: dict, name: str, where: tuple[list, int], lay_seed: 
         target_list_is_top = lst is p["prog"]
     fault = {"k": "raw", "text": text}
     lst.insert(i, fault)
+    applied = kind == "node_applied"
+    if applied:
+        kind = "node"
+        p["prog"].append({"k": "raw", "text": "lib_zz9(3)"})
     try:
         lay = Layout(random.Random(lay_seed), indent=True, blank=True, trailing=(kind != "scan_eof"), comments=True, block_comments=True, exotic_comments=True)
         rd = render(p["prog"], lay)
@@ -95,6 +107,8 @@ def check_case(res: Res, p: dict, name: str, where: tuple[list, int], lay_seed: 
         main = "\n".join(rd.lines)
         files = dict(rd.files)
     finally:
+        if applied:
+            p["prog"].pop()
         del lst[i]
     lrng = random.Random(lay_seed ^ 0x17)
     if lrng.random() < 0.25:
